@@ -111,8 +111,8 @@ pub fn run(ctx: &mut Ctx) {
     cfg.dividends = false;
     let n = ctx.n(600, 40_000);
     let cases = matcher_cases(prop, ctx, &cfg, n);
-    ctx.ev.rule = "corpus + repo fixtures + generated ledgers (1–3 securities, 2–14 lines, dates clustered on window edges / month ends / 5–6 April, exact split ratios, fractional quantities; every third a contention shape). Compared: quantities of legs and holdings only. Non-trivial = accepted ledger in which a disposal is spread over ≥ 2 rules or a 30-day leg crosses a split; distinct by ledger text.".into();
-    let proj = Proj { money: false, qty: true, legs_exact: true, holdings: true, err_detail: false };
+    ctx.ev.rule = "corpus + repo fixtures + generated ledgers (1–3 securities, 2–14 lines, dates clustered on window edges / month ends / 5–6 April, exact split ratios, fractional quantities; every third a contention shape). Compared (projection of this property): accept/reject, per-disposal-day leg quantity totals, closing holding quantities. Non-trivial = accepted ledger in which a disposal is spread over ≥ 2 rules or a 30-day leg crosses a split; distinct by ledger text.".into();
+    let proj = Proj { money: false, qty: true, legs_exact: true, holdings: true, err_detail: false, legs_day_totals: true, legs_none: false };
     for (name, l) in cases {
         ctx.ev.evaluations += 1;
         let imp = run_impl::impl_match(&l);
